@@ -145,3 +145,72 @@ Example C34_ex_eventloop_cancel :
                (steps [0; 0; 0; 0; 1; 1; 1]%nat ++ [MTick 1000] ++ steps [1; 1; 1; 1; 1]%nat) in
   map it_lbl (checks (L c)) = [1%nat] /\ existsb (is_start_of 1) (L c) = false /\ quiescent c = true.
 Proof. vm_compute. repeat split; reflexivity. Qed.
+
+(* ---- NewThreadScheduler / ThreadPoolScheduler composed with the inner event loop (Core/EventLoopFacts3.v) ---- *)
+From RxVerif Require Import Core.EventLoopFacts3.
+
+(* the due time of an accepted event-loop item is EXACTLY what the call that made it computed: the call (same
+   uid, same action) is in the log, its first step read the clock at tc >= t0, and due = tc for schedule,
+   tc + max(0, d) for a schedule_relative(d) of that action occurring in a program / action body, or the
+   argument of a schedule_absolute of that action *)
+Theorem C34_eventloop_due_exact : forall eie body progs t0 sched i,
+  let c := run eie body (init t0 progs) sched in
+  In (EAcc i) (L c) ->
+  exists tid tc, In (tid, tc, ECall (it_uid i) (it_lbl i)) (c_log c) /\ t0 <= tc /\
+    ((src body progs (SchedNow (it_lbl i)) /\ it_due i = tc) \/
+     (exists d, src body progs (SchedRel d (it_lbl i)) /\ it_due i = tc + Z.max 0 d) \/
+     src body progs (SchedAbs (it_due i) (it_lbl i))).
+Proof. exact el_accepted_due_exact. Qed.
+Print Assumptions C34_eventloop_due_exact.
+
+(* NewThread / ThreadPool schedule_absolute(t, a): the outer call reads the clock (now1) and hands the delay
+   t - now1 to schedule_relative of a fresh EventLoopScheduler whose clock reads now2 >= now1 at the earliest.
+   Whatever else happens on that loop (other threads, action bodies: anything except another scheduling call
+   for the same action a), over all schedules: an item of action a that starts has due >= t, starts at a
+   clock reading >= t, and every dispose() of a's disposable returned at a reading >= t (disposed before t
+   => never starts) *)
+Theorem C34_newthread_absolute_composed : forall eie body progs t now1 now2 a sched,
+  now1 <= now2 ->
+  (forall o, src body progs o -> only_rel a (t - now1) o) ->
+  let c := run eie body (init now2 progs) sched in
+  forall tid ts i, In (tid, ts, EStart i) (c_log c) -> it_lbl i = a ->
+    t <= it_due i /\ t <= ts /\ forall tid' t', In (tid', t', ECancelRet a) (c_log c) -> t <= t'.
+Proof. exact newthread_absolute_composed. Qed.
+Print Assumptions C34_newthread_absolute_composed.
+
+(* the audit's form: the inner loop receives exactly one outside call (uid 0); the action body is ARBITRARY
+   (it may schedule a again with any delay, cancel, dispose the scheduler) *)
+Theorem C34_newthread_absolute_one_call : forall eie body t now1 now2 a sched,
+  now1 <= now2 ->
+  let c := run eie body (init now2 [[SchedRel (t - now1) a]]) sched in
+  forall tid ts i, In (tid, ts, EStart i) (c_log c) -> it_uid i = 0%nat ->
+    it_lbl i = a /\ t <= ts /\ forall tid' t', In (tid', t', ECancelRet a) (c_log c) -> t <= t'.
+Proof. exact newthread_absolute_one_call. Qed.
+Print Assumptions C34_newthread_absolute_one_call.
+
+(* non-vacuity.  t = 150, now1 = 90 (delay 60), inner clock now2 = 100: the item is due at 160 >= 150; it
+   starts at 160 and a second thread's dispose() returns at 160 (after the is_cancelled() test); the
+   hypothesis on the programs holds *)
+Example C34_ex_newthread_composed :
+  let progs := [[SchedRel (150 - 90) 1%nat]; [Cancel 1%nat]] in
+  let c := run true nobody (init 100 progs)
+               (steps [0; 0; 0; 2; 2; 2]%nat ++ [MTick 60] ++ steps [2; 2; 2; 2; 1; 2; 2]%nat) in
+  (forall o, src nobody progs o -> only_rel 1%nat (150 - 90) o) /\
+  In (2%nat, 160, EStart (Item 0 1 160 false)) (c_log c) /\ In (1%nat, 160, ECancelRet 1%nat) (c_log c) /\
+  quiescent c = true.
+Proof.
+  split.
+  - intros o [(p & [<-|[<-|[]]] & [<-|[]])|(b & [])]; cbn; auto.
+  - vm_compute. repeat split; auto 12.
+Qed.
+
+(* one-call form with a body that schedules another action and disposes its own disposable: uid 0 starts
+   at 170 >= 150 (the clock thread overslept), the nested item (uid 1) at 175 *)
+Example C34_ex_newthread_one_call :
+  let bw := fun b : nat => match b with 1%nat => [SchedRel 5 2%nat; Cancel 1%nat] | _ => [] end in
+  let c := run true bw (init 100 [[SchedRel (150 - 90) 1%nat]])
+               (steps [0; 0; 0; 1; 1; 1]%nat ++ [MTick 70] ++ steps [1; 1; 1; 1; 1; 1; 1; 1; 1; 1; 1; 1]%nat ++
+                [MTick 5] ++ steps [1; 1; 1; 1; 1; 1; 1]%nat) in
+  In (1%nat, 170, EStart (Item 0 1 160 false)) (c_log c) /\ In (1%nat, 170, ECancelRet 1%nat) (c_log c) /\
+  In (1%nat, 175, EStart (Item 1 2 175 false)) (c_log c) /\ quiescent c = true.
+Proof. vm_compute. repeat split; auto 20. Qed.
